@@ -251,11 +251,9 @@ Qed.
 Lemma row_cells_length id x : length (row_cells (length x) (apply_fn id x)) = length x.
 Proof.
   unfold row_cells.
-  destruct id as [|[|[|[|[|[|[|[|id]]]]]]]]; cbn [apply_fn];
-    try (rewrite repeat_length; reflexivity); rewrite firstn_length.
-  - lia.
-  - rewrite rev_length. lia.
-  - rewrite map_length. lia.
+  destruct id as [|[|[|[|[|[|[|[|[|[|id]]]]]]]]]]; cbn [apply_fn];
+    try (rewrite repeat_length; reflexivity); rewrite firstn_length;
+    rewrite ?rev_length, ?map_length; lia.
 Qed.
 
 (* the function is applied exactly once per row, to that row's cells in sorted-column
@@ -454,7 +452,7 @@ Proof. reflexivity. Qed.
 Lemma apply_col_length id d r : apply_col id d = Ok r -> length r = length d.
 Proof.
   unfold apply_col.
-  destruct id as [|[|[|[|[|[|[|[|id]]]]]]]]; cbn [apply_fn]; intros H; inversion H;
+  destruct id as [|[|[|[|[|[|[|[|[|[|id]]]]]]]]]]; cbn [apply_fn]; intros H; inversion H;
     rewrite ?rev_length, ?repeat_length, ?map_length, ?seq_length; reflexivity.
 Qed.
 
